@@ -108,3 +108,65 @@ Proof. intros t e f W H Hf Hr. destruct (tmpl_roundtrip t e H) as (_ & _ & _ & H
 (* two environments that agree on the fields of the template give the same word; different chunk lists give different words *)
 Lemma tenc_inj_chunks : forall t e1 e2, forallb item_wf t = true -> tenc t e1 = tenc t e2 -> map (ival e1) t = map (ival e2) t.
 Proof. intros t e1 e2 H E. rewrite <- (tchunks_tenc t e1 H), <- (tchunks_tenc t e2 H), E. reflexivity. Qed.
+
+(* ---- fixed bits as a mask: tmask/tfixed (used by the table-agreement theorem) describe the same fixed bits as tmatch ---- *)
+Lemma testbit_hi_lo : forall s h l n, 0 <= s -> 0 <= l < 2 ^ s -> 0 <= n ->
+  Z.testbit (h * 2 ^ s + l) n = if n <? s then Z.testbit l n else Z.testbit h (n - s).
+Proof.
+  intros s h l n Hs Hl Hn.
+  assert (E : h * 2 ^ s + l = Z.lor (Z.shiftl h s) l).
+  { rewrite <- Z.shiftl_mul_pow2 by lia. rewrite <- Z.lxor_lor.
+    - apply Z.add_nocarry_lxor. apply Z.bits_inj'. intros k Hk. rewrite Z.land_spec, Z.bits_0.
+      destruct (Z_lt_ge_dec k s).
+      + rewrite Z.shiftl_spec_low by lia. reflexivity.
+      + rewrite <- (Z.mod_small l (2 ^ s)) by lia. rewrite Z.mod_pow2_bits_high by lia. apply andb_false_r.
+    - apply Z.bits_inj'. intros k Hk. rewrite Z.land_spec, Z.bits_0.
+      destruct (Z_lt_ge_dec k s).
+      + rewrite Z.shiftl_spec_low by lia. reflexivity.
+      + rewrite <- (Z.mod_small l (2 ^ s)) by lia. rewrite Z.mod_pow2_bits_high by lia. apply andb_false_r. }
+  rewrite E, Z.lor_spec. destruct (n <? s) eqn:C.
+  - apply Z.ltb_lt in C. rewrite Z.shiftl_spec_low by lia. reflexivity.
+  - apply Z.ltb_ge in C. rewrite Z.shiftl_spec by lia.
+    rewrite <- (Z.mod_small l (2 ^ s)) by lia. rewrite Z.mod_pow2_bits_high by lia. apply orb_false_r.
+Qed.
+
+Lemma land_hi_lo : forall s h1 l1 h2 l2, 0 <= s -> 0 <= l1 < 2 ^ s -> 0 <= l2 < 2 ^ s -> 0 <= Z.land l1 l2 < 2 ^ s ->
+  Z.land (h1 * 2 ^ s + l1) (h2 * 2 ^ s + l2) = Z.land h1 h2 * 2 ^ s + Z.land l1 l2.
+Proof.
+  intros s h1 l1 h2 l2 Hs H1 H2 H3. apply Z.bits_inj'. intros n Hn.
+  rewrite Z.land_spec, !testbit_hi_lo by assumption. destruct (n <? s); rewrite Z.land_spec; reflexivity.
+Qed.
+
+Lemma tmask_range : forall t, forallb item_wf t = true -> 0 <= tmask t < 2 ^ twidth t.
+Proof.
+  induction t; simpl; intros H. { lia. }
+  apply andb_prop in H. destruct H as [H1 H2]. specialize (IHt H2).
+  pose proof (item_wf_width _ H1) as Hw. pose proof (twidth_nonneg _ H2) as Hs.
+  assert (0 < 2 ^ twidth t) by (apply Z.pow_pos_nonneg; lia).
+  destruct a; simpl in *.
+  - rewrite Z.pow_add_r by lia. assert (0 < 2 ^ w) by (apply Z.pow_pos_nonneg; lia). nia.
+  - rewrite Z.pow_add_r by lia. assert (0 < 2 ^ (hi - lo + 1)) by (apply Z.pow_pos_nonneg; lia). nia.
+Qed.
+
+(* every encoded word carries exactly tfixed on the positions of tmask, whatever the field values *)
+Theorem tenc_fixed_bits : forall t e, forallb item_wf t = true -> Z.land (tenc t e) (tmask t) = tfixed t.
+Proof.
+  unfold tfixed. induction t; intros e H. { reflexivity. }
+  cbn [forallb] in H. apply andb_prop in H. destruct H as [H1 H2].
+  pose proof (twidth_nonneg _ H2) as Hs. pose proof (tenc_range t e H2) as Hr. pose proof (tenc_range t [] H2) as Hr0.
+  pose proof (tmask_range t H2) as Hm. specialize (IHt e H2).
+  destruct a; cbn [tenc tmask ival].
+  - repeat (apply andb_prop in H1; destruct H1 as [H1 ?]).
+    apply Z.leb_le in H1. match goal with X : (0 <=? v) = true |- _ => apply Z.leb_le in X end. match goal with X : (v <? 2 ^ w) = true |- _ => apply Z.ltb_lt in X end.
+    rewrite land_hi_lo by (try assumption; rewrite IHt; assumption). rewrite IHt. f_equal. f_equal.
+    replace (2 ^ w - 1) with (Z.ones w) by (rewrite Z.ones_equiv; lia). rewrite Z.land_ones by lia. apply Z.mod_small. lia.
+  - replace (tmask t) with (0 * 2 ^ twidth t + tmask t) by lia.
+    rewrite land_hi_lo by (try assumption; rewrite IHt; assumption). rewrite IHt, Z.land_0_r.
+    cbn [lookup]. rewrite Z.div_0_l by (apply Z.pow_nonzero; cbn in H1; apply andb_prop in H1; destruct H1 as [X _]; apply Z.leb_le in X; lia).
+    rewrite Z.mod_0_l by (apply Z.pow_nonzero; cbn in H1; apply andb_prop in H1; destruct H1 as [X Y]; apply Z.leb_le in X; apply Z.leb_le in Y; lia). reflexivity.
+Qed.
+
+(* hence a word that agrees with tfixed outside var agrees, outside var, with the fixed bits of EVERY word the template encodes *)
+Corollary tword_agrees_enc : forall t e w var, forallb item_wf t = true -> tword_agrees t w var = true ->
+  Z.land (Z.lxor w (Z.land (tenc t e) (tmask t))) (Z.land (tmask t) (4294967295 - var)) = 0.
+Proof. intros t e w var H A. rewrite tenc_fixed_bits by exact H. unfold tword_agrees in A. apply Z.eqb_eq in A. exact A. Qed.
